@@ -162,9 +162,9 @@ def run(chk):
     chk.rule("R18.2", "series wiring (unit direction vectors, distance, time scale) and frozen coefficients")
     chk.rule("R18.3", "JPL segment lookup: TDB argument, units, sign convention")
     chk.rule("R18.4", "frames created from kernels / analytical bodies are wired to the right parents")
-    r18_1(chk)
-    r18_2(chk)
-    r18_3(chk)
-    r18_4(chk)
+    chk.guard(r18_1, chk)
+    chk.guard(r18_2, chk)
+    chk.guard(r18_3, chk)
+    chk.guard(r18_4, chk)
     chk.assume("jplephem: SPK.pairs[(center, target)] gives target relative to center; compute_and_differentiate returns km and km/day")
     chk.assume("series coefficients: the values of the pinned tree (agreeing with DE to the stated accuracy in the suite) are the reference")
